@@ -32,6 +32,8 @@ type recvStore struct {
 	loads     int
 	// lastInjected[instance]: the last failed load of that instance was an injected failure
 	lastInjected map[string]bool
+	// vanish: this blob disappears at the moment a downloader asks for it
+	vanish string
 }
 
 func (s *recvStore) Load(ctx context.Context, name string) ([]byte, error) {
@@ -51,6 +53,9 @@ func (s *recvStore) Load(ctx context.Context, name string) ([]byte, error) {
 		return nil, errInjected
 	}
 	s.lastInjected[inst] = false
+	if s.vanish == name {
+		_ = s.Interface.Delete(ctx, name)
+	}
 	s.mu.Unlock()
 	return s.Interface.Load(ctx, name)
 }
@@ -67,13 +72,15 @@ func (s *recvStore) List(ctx context.Context, prefix string) (simpleblob.BlobLis
 }
 
 type recvImpl struct {
-	st     *recvStore
-	r      *receiver.Receiver
-	ctx    context.Context
-	cancel context.CancelFunc
-	held   *snapshot.Update
-	heldID string
-	seen   map[string]string
+	st        *recvStore
+	r         *receiver.Receiver
+	ctx       context.Context
+	cancel    context.CancelFunc
+	held      *snapshot.Update
+	heldID    string
+	seen      map[string]string
+	good      map[string]bool // names stored as decodable blobs
+	delivered map[string]bool // names Next() has handed over
 	// downloaders parked in their back-off after a load that failed for good (blob gone)
 	pmu    sync.Mutex
 	parked map[string]bool
@@ -110,21 +117,23 @@ func (x *recvImpl) release() {
 
 // settled: every downloader is waiting for a signal with nothing to do, parked after a load
 // that failed for good, or blocked on a token that nobody in motion is going to release.
-func (x *recvImpl) settled() bool {
+func (x *recvImpl) settled() (ok, blocked bool) {
 	dlF, _, dcF, _ := x.r.VerifFree()
 	x.pmu.Lock()
 	defer x.pmu.Unlock()
 	for inst, d := range x.r.VerifDownloaders() {
 		switch {
-		case d[0] == "idle" && d[1] == "uptodate":
+		case d[0] == "idle" && d[1] == "nosignal":
 		case d[0] == "backoff" && x.parked[inst]:
 		case d[0] == "wantDl" && dlF == 0:
+			blocked = true
 		case d[0] == "wantDc" && dcF == 0:
+			blocked = true
 		default:
-			return false
+			return false, false
 		}
 	}
-	return true
+	return true, blocked
 }
 
 var rcv *recvImpl
@@ -206,9 +215,11 @@ func (x *recvImpl) settle() {
 	deadline := time.Now().Add(2 * time.Second)
 	ok := 0
 	for time.Now().Before(deadline) {
-		if x.settled() {
+		// "waiting for a token and none is free" also describes a downloader that has just got
+		// the last token and has not announced its next phase yet: look longer in that case
+		if st, blocked := x.settled(); st {
 			ok++
-			if ok >= 3 {
+			if (!blocked && ok >= 3) || ok >= 25 {
 				return
 			}
 		} else {
@@ -225,6 +236,32 @@ func (x *recvImpl) settle() {
 
 var recvSettleTimeouts int
 
+// orderHint: the order in which the real downloaders got their turn, as far as it is visible
+// after settling: those that finished without keeping anything (parked after a failed or corrupt
+// load), those that finished, those waiting for a decompress token (they hold a download token),
+// those waiting for a download token. The model moves its downloaders in this order.
+func (x *recvImpl) orderHint() string {
+	var g [4][]string
+	for inst, d := range x.r.VerifDownloaders() {
+		switch d[0] {
+		case "backoff":
+			g[0] = append(g[0], inst)
+		case "idle":
+			g[1] = append(g[1], inst)
+		case "wantDc":
+			g[2] = append(g[2], inst)
+		default:
+			g[3] = append(g[3], inst)
+		}
+	}
+	var all []string
+	for i := range g {
+		sort.Strings(g[i])
+		all = append(all, g[i]...)
+	}
+	return "ord=" + strings.Join(all, ",")
+}
+
 func init() {
 	implOps["recv.new"] = func(a []string) string {
 		if rcv != nil {
@@ -237,7 +274,7 @@ func init() {
 		c.StorageRetryInterval = 200 * time.Microsecond
 		c.StoragePollInterval = time.Hour
 		ctx, cancel := context.WithCancel(context.Background())
-		rcv = &recvImpl{st: st, ctx: ctx, cancel: cancel, parked: map[string]bool{}, wake: make(chan struct{})}
+		rcv = &recvImpl{st: st, ctx: ctx, cancel: cancel, parked: map[string]bool{}, wake: make(chan struct{}), good: map[string]bool{}, delivered: map[string]bool{}}
 		receiver.VerifBackoff = rcv.backoff
 		rcv.r = receiver.New(st, c, "db", logrus.StandardLogger(), a[0], events.New(), hooks.New())
 		return "ok"
@@ -255,6 +292,7 @@ func init() {
 		if err := rcv.st.Interface.Store(context.Background(), recvName(a[0], ts), blob); err != nil {
 			return "err store"
 		}
+		rcv.good[recvName(a[0], ts)] = a[2] == "0"
 		return "ok"
 	}
 	implOps["recv.rm"] = func(a []string) string {
@@ -274,10 +312,30 @@ func init() {
 			rcv.st.mu.Unlock()
 		}
 		err := rcv.r.RunOnce(rcv.ctx, a[0] == "1")
+		rcv.settle()
+		rewrittenLine = fmt.Sprintf("recv.run %s %s %s", a[0], a[1], rcv.orderHint())
+		if err != nil {
+			return "err list"
+		}
+		return "ok"
+	}
+	// recv.runrm <inst> <ts>: a listing after which the named blob vanishes before any downloader
+	// gets to load it (cleaned by its owner between listing and download)
+	implOps["recv.runrm"] = func(a []string) string {
+		name := recvName(a[0], u64(a[1]))
+		rcv.st.mu.Lock()
+		rcv.st.vanish = name
+		rcv.st.mu.Unlock()
+		err := rcv.r.RunOnce(rcv.ctx, false)
+		rcv.st.mu.Lock()
+		rcv.st.vanish = ""
+		rcv.st.mu.Unlock()
+		_ = rcv.st.Interface.Delete(context.Background(), name)
 		if err != nil {
 			return "err list"
 		}
 		rcv.settle()
+		rewrittenLine = fmt.Sprintf("recv.runrm %s %s %s", a[0], a[1], rcv.orderHint())
 		return "ok"
 	}
 	implOps["recv.next"] = func(a []string) string {
@@ -287,15 +345,16 @@ func init() {
 			rcv.held = nil
 		}
 		rcv.settle()
+		hint := rcv.orderHint()
 		inst, u := rcv.r.Next()
 		if inst == "" {
-			rewrittenLine = "recv.next -"
+			rewrittenLine = "recv.next - " + hint
 			return "ok none"
 		}
 		rcv.held = &u
 		rcv.heldID = recvTok(u.NameInfo.FullName)
-		rewrittenLine = "recv.next " + inst
-		rcv.settle()
+		rcv.delivered[u.NameInfo.FullName] = true
+		rewrittenLine = "recv.next " + inst + " " + hint
 		return "ok " + rcv.heldID
 	}
 	implOps["recv.close"] = func(a []string) string {
@@ -304,9 +363,73 @@ func init() {
 			rcv.held = nil
 		}
 		rcv.settle()
+		rewrittenLine = "recv.close " + rcv.orderHint()
 		return "ok"
 	}
 	implOps["recv.state"] = func(a []string) string { return "ok " + rcv.stateString() }
+	// prop.c16.delivered (after a successful listing and a complete drain by the consumer): the
+	// newest decodable snapshot of every other instance in the bucket has been handed over
+	implOps["prop.c16.delivered"] = func(a []string) string {
+		ls, err := rcv.st.Interface.List(context.Background(), "")
+		if err != nil {
+			return "err list"
+		}
+		newest := map[string]string{}
+		for _, n := range ls.Names() { // sorted: later names are newer
+			ni, err := snapshot.ParseName(n)
+			if err != nil || !rcv.good[n] {
+				continue
+			}
+			newest[ni.InstanceID] = n
+		}
+		// only a settled receiver is judged: every downloader waits on an empty signal channel,
+		// nothing is pending or held, and a listing now (with every corrupt name ignored) would
+		// give what the last listing gave
+		corrupt := map[string]bool{}
+		for _, n := range rcv.r.VerifCorrupt() {
+			corrupt[n] = true
+		}
+		fresh := map[string]string{}
+		for _, n := range ls.Names() {
+			if ni, err := snapshot.ParseName(n); err == nil && !corrupt[n] {
+				fresh[ni.InstanceID] = n
+			}
+		}
+		seen := map[string]string{}
+		for _, n := range rcv.r.VerifLastSeen() {
+			if ni, err := snapshot.ParseName(n); err == nil {
+				seen[ni.InstanceID] = n
+			}
+		}
+		rest := rcv.held == nil && len(rcv.r.VerifPending()) == 0 && len(fresh) == len(seen)
+		for inst, n := range fresh {
+			rest = rest && seen[inst] == n
+		}
+		// (a downloader still retrying a name that is gone although the listing is up to date is
+		// not going anywhere either: it counts as settled, and what it should have fetched as owed)
+		rcv.pmu.Lock()
+		for inst, d := range rcv.r.VerifDownloaders() {
+			rest = rest && ((d[0] == "idle" && d[1] == "nosignal") || (d[0] == "backoff" && rcv.parked[inst]))
+		}
+		rcv.pmu.Unlock()
+		if !rest {
+			return "ok not-at-rest"
+		}
+		var miss []string
+		for inst, n := range newest {
+			if inst == a[0] {
+				continue // the own instance is only wanted during start-up
+			}
+			if !rcv.delivered[n] {
+				miss = append(miss, recvTok(n))
+			}
+		}
+		if len(miss) > 0 {
+			sort.Strings(miss)
+			return "FAIL newest-decodable-snapshot-never-delivered " + strings.Join(miss, ",")
+		}
+		return "ok"
+	}
 	// prop.c16.check: token accounting as an outside observer sees it
 	implOps["prop.c16.check"] = func(a []string) string {
 		dlF, dlL, dcF, dcL := rcv.r.VerifFree()
